@@ -143,6 +143,7 @@ def run_jobs(jobs, table):
                     p._pyroSerializer = ser
                     p._pyroBind()
                 caught = None
+                p._pyroMaxRetries = job.get("retries", 0)     # (a proxy told to retry repeats the call; what it raises in the end is the same)
                 try:
                     if ck == "call":
                         p.raiser(spec)
@@ -269,6 +270,14 @@ def run(ctx):
             kind = "pyro" if name.startswith("Pyro5") else "builtin"
             jobs.append({"ser": ser, "ck": "reraise", "spec": {"cls": name, "args": ["kept", si], "attrs": {"code": si}, "unser": False}, "kind": kind,
                          "carriable": True, "a": "str_int", "t": "one_int", "raised_args": ["kept", si]})
+        # a proxy that is told to retry: the errors it retries on are raised by the remote method itself here
+        for name in ("Pyro5.errors.TimeoutError", "Pyro5.errors.ConnectionClosedError", "Pyro5.errors.CommunicationError", "ValueError"):
+            for retries in (1, 2):
+                jobs.append({"ser": ser, "ck": "call", "spec": {"cls": name, "args": ["retried", retries], "attrs": {"code": retries}, "unser": False},
+                             "kind": "pyro" if name.startswith("Pyro5") else "builtin", "carriable": True, "a": "str_int", "t": "one_int",
+                             "raised_args": ["retried", retries], "retries": retries})
+        for name in ("ValueError", "Pyro5.errors.NamingError", "KeyError"):
+            kind = "pyro" if name.startswith("Pyro5") else "builtin"
             # an error whose reply is larger than the daemon is allowed to send (MAX_MESSAGE_SIZE is lowered for these)
             for ck in ("call", "getattr", "stream"):
                 jobs.append({"ser": ser, "ck": ck, "spec": {"cls": name, "args": ["x"], "big": 200000, "attrs": {}, "unser": False}, "kind": "oversize",
